@@ -117,6 +117,40 @@ def deviation_kernel(prog, name):
     root = prog.method("DeviationExt", name)
     zf = zip_foreach(prog, root)
     if zf is None:
+        # fold form: Zip::from(self).and(other).fold(init, |acc, a, b| …)
+        for bb, t in root.calls():
+            if callee_name(t) == "fold" and (t["callee"].get("path") or "").startswith("ndarray::Zip"):
+                args = root.call_arg_exprs(bb)
+                z = ds(args[0])
+                prods = []
+                while isinstance(z, tuple) and z[0] == "call" and z[1] in ("and", "from"):
+                    if z[1] == "and":
+                        prods.append(z[3][1])
+                        z = ds(z[3][0])
+                    else:
+                        prods.append(z[3][0])
+                        break
+                prods.reverse()
+                cb, ups = closure_of(prog, args[2])
+                if cb is None or len(prods) != 2:
+                    break
+                ret, updates = closure_terms(prog, cb, {2: ("sym", "ACC"), 3: ("sym", "a"), 4: ("sym", "b")})
+                if updates:
+                    raise Unrecognised("fold closure also updates captured state")
+
+                def keepify(t_):
+                    if isinstance(t_, tuple) and t_[0] == "ite":
+                        return ("ite", t_[1], keepify(t_[2]), keepify(t_[3]))
+                    return ("keep",) if t_ == ("sym", "ACC") else t_
+                upd = keepify(ret)
+                # the routine returns the fold's result
+                me = ds(root.call_expr(bb))
+                svs = [ds(v) for _, v in success_values(root)]
+                if not svs or any(v != me for v in svs):
+                    raise Unrecognised("the fold result is not what the routine returns")
+                K = Kernel(prog, root, lambda e: None)
+                return dict(root=root, closure=cb, producers_ok=ds(prods[0])[:2] == ("param", 1) and ds(prods[1])[:2] == ("param", 2),
+                            update=upd, init=K.term(args[1]), bb=bb, upvar=None, ups=ups)
         raise Unrecognised("no Zip::from(self).and(other).for_each(..) in %s" % name)
     bb, prods, cb, ups = zf
     if len(prods) != 2:
@@ -1422,7 +1456,13 @@ def canon_expr(prog, body, e, depth=0):
         return ("binop", e[1], canon_expr(prog, body, e[2], depth + 1), canon_expr(prog, body, e[3], depth + 1))
     if k in ("unop", "cast"):
         return (k, e[1], canon_expr(prog, body, e[2], depth + 1)) + e[3:]
-    if k in ("field", "downcast", "discr"):
+    if k == "field":
+        inner = canon_expr(prog, body, e[1], depth + 1)
+        # component of a tuple built in place (e.g. after inlining a helper that returns a tuple)
+        if isinstance(inner, tuple) and inner[0] == "agg" and inner[1] in ("tuple", None) and str(e[2]).isdigit() and int(e[2]) < len(inner[3]):
+            return inner[3][int(e[2])]
+        return (k, inner) + e[2:]
+    if k in ("downcast", "discr"):
         return (k, canon_expr(prog, body, e[1], depth + 1)) + e[2:]
     if k == "index":
         return ("index", canon_expr(prog, body, e[1], depth + 1), canon_expr(prog, body, e[2], depth + 1))
@@ -1436,6 +1476,11 @@ def canon_expr(prog, body, e, depth=0):
 def rule_c18_moments(ctx, prog, rule="R13"):
     S = lambda n: prog.method("SummaryStatisticsExt", n)
     cm, cms = S("central_moment"), S("central_moments")
+    # private helpers shared by the two routines (other than the three pipeline stages) are analysed in place
+    from .facts import inline_calls
+    keep = ("moments", "central_moment_coefficients", "horner_method")
+    filt = lambda cb: cb.key not in prog.exported and len(cb.blocks) <= 60 and cb.name not in keep and not cb.raw.get("unsafe_fn")
+    cm, cms = inline_calls(prog, cm, filt), inline_calls(prog, cms, filt)
 
     def horner_sites(b):
         out = []
@@ -1654,6 +1699,48 @@ def rule_moment_pipeline(ctx, prog, rule="R19"):
                 ok_shape = rev_ok and prod_ok and row is not None
                 detail = "coefficient k = C(row, k) · moments[len−1−k]" if ok_shape else \
                     "reversed moments=%s product=%s row=%s" % (rev_ok, prod_ok, show(row) if row else None)
+    if not ok_shape:
+        # loop form: a Vec constructor filled by `push(from_usize(binom) · moment)` for (binom, &moment) in IterBinomial::new(row).zip(moments.iter().rev())
+        try:
+            tcc = prog.tracked(cc)
+            lp = T.Loop(tcc)
+            it = lp.iterator()
+            pushes = [(pb, t) for pb, t in tcc.calls() if callee_name(t) == "push" and pb in lp.blocks]
+            others = [(pb, t) for pb, t in tcc.calls() if callee_name(t) in ("push", "insert", "extend", "truncate", "pop", "clear", "reverse", "sort") and pb not in lp.blocks]
+            if it is not None and len(pushes) == 1 and not others:
+                il, item, iinit = it
+                z = ds(iinit)
+                while z[0] == "call" and z[1] == "into_iter":
+                    z = ds(z[3][0])
+                if z[0] == "call" and z[1] == "zip":
+                    binom, mom = ds(z[3][0]), ds(z[3][1])
+                    if binom[0] == "call" and binom[1] == "new" and "IterBinomial" in binom[2]:
+                        K = Kernel(prog, cc, lambda e: ("sym", "L") if (isinstance(e, tuple) and e[0] == "call" and e[1] == "len"
+                                                                         and ds(e[3][0])[:2] == ("param", 1)) else None)
+                        try:
+                            row = K.term(binom[3][0])
+                        except Unrecognised:
+                            row = None
+                    rev_ok = mom[0] == "call" and mom[1] == "rev" and ds(mom[3][0])[0] == "call" and ds(mom[3][0])[1] == "iter" \
+                        and ds(ds(mom[3][0])[3][0])[:2] == ("param", 1)
+                    item_d = ds(item)
+
+                    def pleaf(e):
+                        if isinstance(e, tuple) and e[0] == "field" and ds(e[1]) == item_d:
+                            return ("sym", "binom") if str(e[2]) == "0" else ("sym", "moment")
+                        return None
+                    Kp = Kernel(prog, tcc, pleaf)
+                    pv = Kp.term(tcc.call_arg_exprs(pushes[0][0])[1])
+                    prod_ok = canon_op(pv) == canon_op(("mul", ("sym", "binom"), ("sym", "moment")))
+                    # the returned vector is the one pushed to
+                    rv_ = ds(tcc.return_expr())
+                    recv = ds(tcc.call_arg_exprs(pushes[0][0])[0])
+                    ret_ok = rv_ == recv or (isinstance(rv_, tuple) and rv_[0] == "call" and rv_[1] in ("with_capacity", "new"))
+                    ok_shape = rev_ok and prod_ok and row is not None and ret_ok
+                    detail = "coefficient k = C(row, k) · moments[len−1−k] (pushed in a loop over the zip)" if ok_shape else \
+                        "loop form: reversed moments=%s product=%s row=%s returns-vector=%s" % (rev_ok, prod_ok, show(row) if row else None, ret_ok)
+        except Unrecognised as ex:
+            detail += " / loop form: %s" % ex
     ctx.ob(rule, "central_moment_coefficients/shape", ok_shape, cc.where(), detail, what="anchor not recognised" if not ok_shape else "")
     if ok_shape:
         bad = []
